@@ -65,7 +65,8 @@ def textx_outcome(mm, s, **kw):
 
 def ref_outcome(g, s, cfg, emulate=()):
     try:
-        rp = RefParser(g, s, cfg.get('skipws', True), cfg.get('ws'), emulate=emulate)
+        rp = RefParser(g, s, cfg.get('skipws', True), cfg.get('ws'), emulate=emulate,
+                       ignore_case=cfg.get('ignore_case', False), autokwd=cfg.get('autokwd', False))
         tree = rp.run()
         b = Builder(g, cfg.get('auto_init_attributes', True), cfg.get('use_regexp_group', False), emulate=emulate)
         return ('ok', dump_ref(b.value(tree))), tree
@@ -73,6 +74,15 @@ def ref_outcome(g, s, cfg, emulate=()):
         return ('reject',), None
     except RecursionError:
         return ('budget',), None
+
+
+def ref_variants_ignore_case(g, tree, cfg):
+    """the readings of string-literal values that C20 leaves open (grammar spelling / as written)"""
+    out = []
+    for emu in ((), ('lit-as-written',), ('kwlit-as-written',)):
+        b = Builder(g, cfg.get('auto_init_attributes', True), cfg.get('use_regexp_group', False), emulate=emu)
+        out.append(('ok', dump_ref(b.value(tree))))
+    return out
 
 
 def grammar_features(g):
